@@ -1,6 +1,6 @@
 """C18 - DataSet transformations preserve the labelled samples.
 
-ALL operation sequences up to depth D over an 20-operation alphabet on real DataSet objects (initial sets: empty,
+ALL operation sequences up to depth D over a 23-operation alphabet on real DataSet objects (initial sets: empty,
 single sample, two samples, ties in min/max with an unlabelled sample, one-dimensional), compared after every step
 with a reference model: the multiset of (sample,label) pairs, the affine bookkeeping since the last overriding
 rescale, and field-by-field propagation of the scaling attributes.  `shuffle` is put under the explorer's control
@@ -37,7 +37,7 @@ INITS = {
     "ties": (np.array([[0.0, 1.0], [2.0, 1.0], [2.0, 5.0], [1.0, 3.0]]), np.array([0, 1, 1, -1])),
     "d1": (np.array([[1.0], [4.0], [2.0]]), np.array([2, 0, -1])),
 }
-OPS = ["sr01", "sr-12", "sr01_override", "sf2", "sf_vec", "shift.5", "shift_vec", "revert", "shuffle_rev", "shuffle_rot", "mbf",
+OPS = ["sr01", "sr-12", "sr01_override", "sf2", "sf_neg", "sf_vec", "sf_vec_neg", "shift.5", "shift_vec", "revert", "shuffle_rev", "shuffle_rot", "mbf",
        "split_labels_cat", "split_pieces.5_cat", "split_pieces0_cat", "split_pieces1_cat", "split_nolabel_cat",
        "rm0", "rm_dup", "rm_oor", "rm_neg", "cat_diff_scaled"]
 
@@ -88,7 +88,7 @@ def _apply(ds, op, model):
             issues.append(("labels_changed", "labels after scale_range %r" % (r,)))
         if list(ds.get_data()[1]) != [int(l) for l in model.get("_labels_before", ds.get_data()[1])]:
             pass
-    elif op in ("sf2", "sf_vec", "shift.5", "shift_vec"):
+    elif op in ("sf2", "sf_neg", "sf_vec", "sf_vec_neg", "shift.5", "shift_vec"):
         if n == 0:
             raise Refusal()
         if not ds.is_scaled():
@@ -97,8 +97,11 @@ def _apply(ds, op, model):
         if op == "sf2":
             ds.scale_factor(2.0)
             want = [tuple(2.0 * v for v in x) for x in order_before]
-        elif op == "sf_vec":
-            fvec = np.array([2.0, 0.5][:dim])
+        elif op == "sf_neg":
+            ds.scale_factor(-2.0)
+            want = [tuple(-2.0 * v for v in x) for x in order_before]
+        elif op in ("sf_vec", "sf_vec_neg"):
+            fvec = np.array(([2.0, 0.5] if op == "sf_vec" else [-1.5, 0.5])[:dim])
             ds.scale_factor(fvec)
             want = [tuple(v * f for v, f in zip(x, fvec)) for x in order_before]
         elif op == "shift.5":
@@ -320,7 +323,7 @@ def main(ctx):
     ctx.add_sample({"init": "two", "sequence": ["sr01", "cat_diff_scaled"]})
     ctx.bounds = {"depth": 4 if ctx.tier == "quick" else 5, "alphabet": OPS, "initial_sets": sorted(INITS), "sequences_executed": total}
     return ctx.finish(
-        rule="every operation sequence up to the stated depth over the 21-operation alphabet on 5 initial data sets (one case = all "
+        rule="every operation sequence up to the stated depth over the 23-operation alphabet on 5 initial data sets (one case = all "
              "completions of a prefix; evaluations = executed operations), lock-step with the reference model after every step",
         assumptions=["revert-restores-original is only demanded while no sample was removed since the first scaling (the statement lists "
                      "scalings, shifts and factors 'in between')", "an exception on an EMPTY set counts as refusal of a degenerate input",
